@@ -267,6 +267,7 @@ impl Kademlia {
                 for action in actions {
                     match self.service.open_substream(peer) {
                         Ok(substream_id) => {
+                            self.pending_substreams.insert(substream_id, peer);
                             context.add_pending_action(substream_id, action);
                         }
                         Err(error) => {
